@@ -91,6 +91,7 @@ func runC02(c *Ctx) {
 	c.rule("copier-exhaustive", "the copier's dispatcher routes every reference-bearing kind {Struct, Ptr, Interface, Map, Slice, Array} to a handler", 1)
 	c.rule("copier-all-exported", "the struct handler descends into a field exactly when its name is exported (a field skipped for any other reason - e.g. a dials tag - would stay aliased)", 1)
 	c.rule("copier-fresh", "in the pointer, map and slice handlers every return that has not installed freshly allocated storage (or a memo hit) into the output is explained by a nil input, an output that is already a different non-nil object, or an unsettable output; in the interface handler every reference-bearing payload kind is re-boxed from fresh storage", 4)
+	c.rule("copier-state-fresh", "the constructors of the copier and of the overlayer return a struct allocated by that call with freshly made memo maps (no pooling or sharing of memo state between copies)", 2)
 	c.rule("copier-elements-descend", "the array handler (also used for slice backing arrays) hands every element 0 <= z < Len to the dispatcher in a loop with no other exit, a return that skips the loop is only reachable for element kinds that cannot hold references, and the map handler's entry loop ends only on exhaustion", 2)
 
 	k := loadCore(c)
@@ -235,6 +236,7 @@ func runC02(c *Ctx) {
 
 	// ---- copier-elements-descend -----------------------------------------------------------------------------
 	c02ElementsDescend(c, cp, "copier-elements-descend")
+	c02CopierStateFresh(c, cp, "copier-state-fresh")
 }
 
 func c05Slots2(c *Ctx, k *core, rule string) {
@@ -415,6 +417,7 @@ func runC03(c *Ctx) {
 	c.rule("value-recursion-guarded", "outside the copier, the places that follow config values through interface fields (Pointerify narrowing an interface field to its default's concrete type; the overlay merging two interface-held pointees of one type) consult a visited set keyed on the pointer followed, and the overlay dereferences its operand only where it is a pointer", 4)
 	c.rule("out-settable", "Ptr/Map payloads of interface values, and deepCopyValue, copy into an addressable temporary reflect.New(T).Elem() (the map handler honours its memo only for settable outputs)", 2)
 	c.rule("copier-fresh", "(shared with C02) references in the result are fresh: every exit of the pointer/map/slice handlers without fresh storage is explained by nil input / already-distinct output / unsettable output; interface payloads are re-boxed", 4)
+	c.rule("copier-state-fresh", "(shared with C02) memo state never survives from one copy to the next", 2)
 	c.rule("copier-elements-descend", "(shared with C02) every array/slice element and every map entry is visited", 2)
 	c.rule("source-copied", "(shared with C02) compose overlays a per-stack deep copy of every slot value, on every path", 1)
 	c.rule("compose-fresh-base", "(shared with C02) compose merges into a deep copy of the defaults made inside compose", 2)
@@ -429,6 +432,7 @@ func runC03(c *Ctx) {
 	}
 	c02CopierFreshAll(c, cp)
 	c02ElementsDescend(c, cp, "copier-elements-descend")
+	c02CopierStateFresh(c, cp, "copier-state-fresh")
 	c03OutSettable(c, cp, "out-settable")
 	c03ValueRecursion(c, "value-recursion-guarded")
 	for f := range cp.scc {
